@@ -37,6 +37,7 @@ OBLIGATIONS = [
     "VgiVerif.C25.C25_delete",
     "VgiVerif.C25.C25_delete_uniform",
     "VgiVerif.C25.C25_routes",
+    "VgiVerif.C25.C25_expiry",
 ]
 TRUSTED = [
     "XChaCha20-Poly1305 as an ideal AEAD (symbolic): an envelope opens iff key, AAD and version are those it was sealed with; "
@@ -92,6 +93,9 @@ FARMS: list[list[dict[str, Any]]] = [
     [{"server_id": "a" * 255, "key": 0, "default_ttl": 7}, {"server_id": "wé", "key": 0, "default_ttl": 7},
      {"server_id": "w\ufffd\ufffd", "key": 0, "default_ttl": 7}],
 ]
+# per-call TTLs of sessions opened by methods: default, 0 (expires as soon as the clock moves), the clock steps themselves
+# (boundary now == expires_at), small, large, and negative (born expired)
+TTLS: list[Any] = [None, None, 0, 0, 1, 1, 3, 5, 100, -1, -5]
 B64 = "ABCDEFGHIJKLMNOPQRSTUVWXYZabcdefghijklmnopqrstuvwxyz0123456789-_"
 
 
@@ -315,8 +319,17 @@ class History:
                     if opened:
                         sid = opened[-1][1]
                         ent = farm.workers[wk].registry._entries.get(bytes.fromhex(sid))
-                        label = ent.state.label if ent is not None else labels[-1]
-                        exp = int(ent.expires_at) if ent is not None else -1
+                        # which open_session call succeeded last: the k-th `o` of the log is the k-th open action of the script
+                        ok_idx = [i for i, x in enumerate(obs["log"]) if isinstance(x, list) and x[0] == "o"][-1]
+                        act = actions[ok_idx]
+                        label = act[1]
+                        # the expiry instant from the property text: open time + the per-call TTL (the worker's default only for None)
+                        exp = farm.rig.clock.now + (act[2] if act[2] is not None else farm.workers[wk].default_ttl)
+                        if ent is not None and (ent.state.label != label or ent.expires_at != float(exp)):
+                            ctx.fail(self.case(), f"C25:wrong-expiry:ttl={act[2]}",
+                                     f"open_session(ttl={act[2]}) at t={farm.rig.clock.now} registered expires_at={ent.expires_at}, want {exp}")
+                            # the history goes on: the consequences (dispatch after expiry, DELETE 204) are reported under their own keys
+                        _ = labels
                         self.mints.append({"wire": obs["session"], "wk": wk, "ident": canon_ident(ident), "label": label, "sid": sid, "expires": exp})
                 # -------- K
                 mop = {"op": "call", "wk": wk, "rq": farm.model_req(ident, op.get("accept"), wire, op.get("client", 0), method),
@@ -403,7 +416,7 @@ def gen_history(rng: Any, farm_idx: int, length: int) -> list[Any]:
         if n_tok == 0 or c < 0.2:
             label += 1
             ops.append({"op": "call", "wk": wk, "id": idn, "accept": "true", "wire": None,
-                        "script": [["o", label, rng.choice([None, None, 0, 1, 5, 100])]], "client": rng.randrange(3)})
+                        "script": [["o", label, rng.choice(TTLS)]], "client": rng.randrange(3)})
             n_tok += 1  # optimistic; an op that names a missing token is skipped
             # immediately: the exact value under every (worker, identity) pair
             if rng.random() < 0.5:
@@ -426,7 +439,7 @@ def gen_history(rng: Any, farm_idx: int, length: int) -> list[Any]:
             ops.append({"op": "delete", "wk": wk, "id": idn, "wire": rng.choice([{"tok": t, "mut": None}] * 4 + [{"tok": t, "mut": "GEN"}, None, {"raw": ""}, {"raw": "zz"}]),
                         "legit": rng.random() < 0.7})
         elif c < 0.88:
-            ops.append({"op": "tick", "dt": rng.choice([1, 1, 3, 6, 11, 51, 400])})
+            ops.append({"op": "tick", "dt": rng.choice([1, 1, 1, 3, 5, 6, 11, 51, 400])})
         elif c < 0.93:
             ops.append({"op": "reap", "wk": wk})
         elif c < 0.96:
@@ -638,6 +651,21 @@ def phase_histories(ctx: Any) -> None:
 
 
 CORPUS: list[dict[str, Any]] = [
+    # TTL edge values: 0 (live only until the clock moves), equal to the clock step (boundary), negative (born expired), None
+    *[{"farm": f, "ops": [
+        {"op": "call", "wk": 0, "id": 1, "accept": "true", "wire": None, "script": [["o", 1, 0]]},
+        {"op": "call", "wk": 0, "id": 1, "accept": "true", "wire": None, "script": [["o", 2, 1]]},
+        {"op": "call", "wk": 0, "id": 1, "accept": "true", "wire": None, "script": [["o", 3, -1]]},
+        {"op": "call", "wk": 0, "id": 1, "accept": "true", "wire": None, "script": [["o", 4, None]]},
+        *[{"op": "call", "wk": 0, "id": 1, "wire": {"tok": t, "mut": None}, "script": ["u"]} for t in range(4)],
+        {"op": "tick", "dt": 1},
+        *[{"op": "call", "wk": 0, "id": 1, "wire": {"tok": t, "mut": None}, "script": ["u"]} for t in range(4)],
+        {"op": "delete", "wk": 0, "id": 1, "wire": {"tok": 0, "mut": None}},
+        {"op": "tick", "dt": 1},
+        *[{"op": "call", "wk": 0, "id": 1, "wire": {"tok": t, "mut": None}, "script": ["u"]} for t in range(4)],
+        {"op": "delete", "wk": 0, "id": 1, "wire": {"tok": 1, "mut": None}},
+        {"op": "delete", "wk": 0, "id": 1, "wire": {"tok": 3, "mut": None}},
+    ]} for f in (0, 1)],
     # methods whose names merely start like the exempt /health endpoint: same rules as any method (with and without URL prefix)
     *[{"farm": f, "ops": [
         {"op": "call", "wk": 0, "id": 1, "accept": "true", "wire": None, "script": [["o", 1, None]], "method": "health_report"},
